@@ -518,7 +518,7 @@ fn subsets_plan(seed: u64, flavour: &str) -> Value {
                 1 => Form::Files,
                 _ => Form::Literals,
             },
-            bp: BuilderPath { output_first: w.chance(1, 2), batch_paths: w.chance(1, 2), swap_backend: w.chance(1, 6), swap_late: false },
+            bp: BuilderPath { output_first: w.chance(1, 2), batch_paths: w.chance(1, 2), swap_backend: w.chance(1, 6), swap_late: false, legacy_path: false },
         });
     }
     // and the full set once, in a random order
